@@ -255,8 +255,8 @@ class Ctx:
     def heavy(self) -> None:
         """Marker placed by a harness after its cheap structural choices and before the expensive part (building and
         running DAGs): during frontier enumeration the path stops here and becomes a work item for the pool."""
-        if self.split_depth is not None and len(self.prefix) > self.floor:
-            raise SplitPoint()
+        if self.split_depth is not None and len(self.prefix) > self.floor and len(self.prefix) >= min(8, self.split_depth):
+            raise SplitPoint()  # (with fewer decisions so far the frontier would be too coarse to balance 16 workers)
 
     def assume(self, cond: Any) -> None:
         if isinstance(cond, SBool):
